@@ -15,7 +15,17 @@
 //%% @pub
 //%% @rewrite 1 /\n\n    \/\/\/ scratch data types\n    scratch: RefCell<Option<Box<dyn Any>>>,\n    semantic_hash: RefCell<Option<u128>>,/ => 
 //%% end
-pub type VTreeIndex = usize;
+#[derive(Clone, Copy)]
+//%% extract src/repr/vtree.rs :: - :: struct VTreeIndex
+//%% @pub
+//%% end
+impl VTreeIndex {
+//%% extract src/repr/vtree.rs :: impl VTreeIndex :: fn value
+//%% @ret r
+//%% @spec
+        ensures r == self.0,
+//%% end
+}
 use SddPtr::*;
 
 pub open spec fn sdd_is_node(p: SddPtr) -> bool { p is BDD || p is ComplBDD || p is Reg || p is Compl }
@@ -208,7 +218,27 @@ impl<'a> DDNNFFold for SddPtr<'a> {
 //%% extract src/repr/sdd/sdd_or.rs :: - :: struct SddNodeIter
 //%% @pub
 //%% end
+impl<'a> SddOr<'a> {
+//%% extract src/repr/sdd/sdd_or.rs :: impl<'a> SddOr<'a> :: fn index
+//%% @ret r
+//%% @spec
+        ensures r == self.index,
+//%% end
+}
+impl<'a> SddPtr<'a> {
+//%% extract src/repr/sdd.rs :: impl<'a> SddPtr<'a> :: fn vtree
+//%% @ret r
+//%% @rewrite 1 /panic!\("called vtree\(\) on a constant"\)/ => unreached()
+//%% @spec
+        requires sdd_is_node(*self),
+//%% end
+}
 impl<'a> BinarySDD<'a> {
+//%% extract src/repr/sdd/binary_sdd.rs :: impl<'a> BinarySDD<'a> :: fn index
+//%% @ret r
+//%% @spec
+        ensures r == self.index,
+//%% end
 //%% extract src/repr/sdd/binary_sdd.rs :: impl<'a> BinarySDD<'a> :: fn low
 //%% @ret r
 //%% @spec
